@@ -237,10 +237,6 @@ func (p *Parser) statement() (Statement, error) {
 
 		return &StatementIf{expr, body, elseBody}, nil
 	case While:
-		wasInLoop := p.inLoop
-		p.inLoop = true
-		defer func() { p.inLoop = wasInLoop }()
-
 		if err := p.consume(While); err != nil {
 			return nil, err
 		}
@@ -257,17 +253,13 @@ func (p *Parser) statement() (Statement, error) {
 			return nil, err
 		}
 
-		body, err := p.statement()
+		body, err := p.loopBody()
 		if err != nil {
 			return nil, err
 		}
 
 		return &StatementWhile{expr, body}, nil
 	case For:
-		wasInLoop := p.inLoop
-		p.inLoop = true
-		defer func() { p.inLoop = wasInLoop }()
-
 		// for (
 		if err := p.consume(For); err != nil {
 			return nil, err
@@ -303,7 +295,7 @@ func (p *Parser) statement() (Statement, error) {
 					return nil, err
 				}
 
-				body, err := p.statement()
+				body, err := p.loopBody()
 				if err != nil {
 					return nil, err
 				}
@@ -334,7 +326,7 @@ func (p *Parser) statement() (Statement, error) {
 			return nil, err
 		}
 
-		body, err := p.statement()
+		body, err := p.loopBody()
 		if err != nil {
 			return nil, err
 		}
@@ -375,6 +367,16 @@ func (p *Parser) statement() (Statement, error) {
 		}
 		return &StatementExpr{expr}, nil
 	}
+}
+
+// parse the body of a loop: break and continue are only valid in here, not in
+// the loop's header expressions
+func (p *Parser) loopBody() (Statement, error) {
+	wasInLoop := p.inLoop
+	p.inLoop = true
+	body, err := p.statement()
+	p.inLoop = wasInLoop
+	return body, err
 }
 
 func (p *Parser) printStatement() (StatementPrint, error) {
